@@ -186,7 +186,7 @@ def run_multiarea_case(arg):
 
 
 def s16_multiarea(ctx):
-    res = StreamResult("S16-multiarea", rule="area frames of 2..3 rows (disjoint boxes / circles, incl. rows with NO trace anywhere near them, in every row position) with traces "
+    res = StreamResult("S16-multiarea", rule="area frames of 2..3 rows (disjoint boxes / circles, incl. rows with NO trace anywhere near them, in every row position; in 30% an additional EMPTY polygon row) with traces "
                        "ending on, crossing and lying inside the boundaries: determine_boundary_intersecting_lines, crop_to_target_areas and branches_and_nodes with the real index "
                        "vs an index answering everything; non-trivial = some trace meets a boundary and some row has an empty candidate window")
     from shapely.geometry import Point, box
@@ -221,6 +221,14 @@ def s16_multiarea(ctx):
                     traces.append([(cx + rng.randint(-8, 8) / 4, y), (cx + 12.0, y + rng.randint(-4, 4) / 4)])
                 else:
                     traces.append([(cx - 12.0, y), (cx + 12.0, y + rng.randint(-8, 8) / 4)])
+        # an area layer can carry a row without geometry (an EMPTY polygon left behind by an edit): it contributes nothing and must not blind the index
+        if rng.random() < 0.3:
+            from shapely.geometry import Polygon as _Polygon
+
+            pos = rng.randint(0, len(shapes))
+            shapes.insert(pos, _Polygon())
+            mapped.insert(pos, False)
+            res.distribution["area_layers_with_an_empty_row"] = res.distribution.get("area_layers_with_an_empty_row", 0) + 1
         cases.append((traces, [g.wkt for g in shapes], mapped))
         for s_ in (False, True):
             args.append((traces, [g.wkt for g in shapes], t, s_))
